@@ -143,7 +143,7 @@ CHECKS = {
  "C14": dict(text="Theorems C14_* (Properties/C14.v): closure - two nodes joined by a path of k+1 connections are directly connected after k "
                   "peer-exchange rounds (induction on k, any graph); a handshake message carrying the node's own id is rejected at every stage with "
                   "no state change and no reply (after the fix of F13); addresses listed under the own id are adopted as own and not dialled; over WHOLE RUNS "
-                  "every peer of every reachable state was admitted by a handshake message of another node - a node never peers with itself (SelfProofs.v). "
+                  "every peer of every reachable state was admitted by a handshake message of another node - a node never peers with itself (SelfProofs.v) - and in every reachable state its own-address list holds every configured own address, so it never dials one (OwnAddrProofs.v). "
                   "PARTIAL: that real nodes perform the exchange step within the interval, also behind NATs, is decided by the correspondence over "
                   "all connected bootstrap graphs of 2-4 nodes, sampled 5-node graphs, NAT and self-dial scenarios.",
              technique="Coq proof (induction over exchange rounds; handshake case analysis) + executed correspondence over bootstrap graphs", ref="5 (C14)"),
